@@ -202,6 +202,8 @@ func (p *printer) raw(t *Term) string {
 			return "(= " + parts[0] + " " + c + ")"
 		}
 		return "(= (xor " + strings.Join(parts, " ") + ") " + c + ")"
+	case OConstArr:
+		return fmt.Sprintf("((as const (Array (_ BitVec 32) (_ BitVec 8))) #x%02x)", t.Val)
 	case OBv2Nat:
 		return fmt.Sprintf("(bv2nat %s)", p.expr(t.Args[0]))
 	case ONat2Bv:
